@@ -287,6 +287,22 @@ def explicit_static(p: Pep) -> Pep:
     return q
 
 
+def expand_terminal_static(p: Pep) -> Pep:
+    """Static rules on N-Term / C-Term written out as terminal modifications (appended after the explicit ones); the
+    rules keep their residue targets. This is the peptide whose pieces the fragment ions are."""
+    q = p.copy()
+    q.static = []
+    for r in p.static:
+        rest = [t for t in r.targets if t not in ('N-Term', 'C-Term')]
+        if 'N-Term' in r.targets:
+            q.nterm = q.nterm + copy.deepcopy(r.mods)
+        if 'C-Term' in r.targets:
+            q.cterm = q.cterm + copy.deepcopy(r.mods)
+        if rest:
+            q.static.append(Rule(copy.deepcopy(r.mods), rest, {k: v for k, v in r.spelling.items() if k in rest}))
+    return q
+
+
 # ---------------------------------------------------------------------------------------------
 # adducts
 # ---------------------------------------------------------------------------------------------
